@@ -300,4 +300,48 @@ def freq (n num : Nat) (sparse sort reduced : Bool) (Kc Mc : Coo K)
 
 end freq
 
+/-! ## specification vocabulary (what the property theorems are stated in) -/
+
+section spec
+variable {R : Type} [Semiring R]
+
+/-- `Σₖ f (i+k) · v[k]` -/
+def dotFrom (f : Nat → R) : Nat → List R → R
+  | _, [] => 0
+  | i, x :: xs => f i * x + dotFrom f (i + 1) xs
+
+/-- `Σ_q f idx[q] · w[q]`: one row of a matrix restricted to the columns `idx` applied to `w` -/
+def dotIdx (f : Nat → R) (idx : List Nat) (w : List R) : R := (List.zipWith (fun u x => f u * x) idx w).sum
+
+/-- the matrix a canonical COO list denotes (repeated positions add, as scipy does) -/
+def Coo.toFun (l : Coo R) (i j : Nat) : R :=
+  ((l.filter fun t => t.1 == i && t.2.1 == j).map fun t => t.2.2).sum
+
+/-- `(μ, w)` solves the pencil `A w = μ B w` restricted to rows/columns `idx` (`w` indexed like `idx`) -/
+def PencilSol (A B : Nat → Nat → R) (idx : List Nat) (μ : R) (w : List R) : Prop :=
+  w.length = idx.length ∧ ∀ u ∈ idx, dotIdx (A u) idx w = μ * dotIdx (B u) idx w
+
+/-- the recorded contract of one external solver call on the pencil `(A, B)` restricted to `idx`:
+as many values as vectors, vectors of the right length, and every returned pair solves the pencil -/
+structure SolverOK (A B : Nat → Nat → R) (idx : List Nat) (o : Out R R) : Prop where
+  nvals : o.vals.length = o.vecs.ncols
+  rows_eq : o.vecs.rows = idx.length
+  pairs : ∀ (c : Nat) μ w, o.vals[c]? = some μ → o.vecs.cols[c]? = some w → PencilSol A B idx μ w
+
+end spec
+
+section source
+variable {K : Type} [Zero K] [DecidableEq K]
+
+/-- which raw solver output, on which index list, the arrays returned by `lb` are built from -/
+def lbSource (n : Nat) (sparse : Bool) (Kc : Coo K) (first second : Option (Out K K)) :
+    Option (List Nat × Out K K) :=
+  if sparse then
+    match first with
+    | some o => some (List.range n, o)
+    | none => second.map fun o => (usedCols n Kc, o)
+  else first.map fun o => (usedCols n Kc, o)
+
+end source
+
 end Compmech.EigPost
